@@ -162,3 +162,5 @@ META["C14"] = {
     "level_text": "All 4 x 2 x 38 (state x foreign-thread kind x public call) cells plus random call sequences are checked for refusal and absence of effects; independence is sampled with 2-4 concurrently looping contexts (ThreadSanitizer report or trace difference = violation).",
     "level_note": "Trusts ThreadSanitizer and the operating system's thread interleavings for the independence stage; absence of races is shown only for the executed interleavings' happens-before relations.",
 }
+
+CHECKS["C09"]["stages"].append(A("actor", "actor1", name="registry", cases={"quick": 1500, "thorough": 30000}, args=["--profile", "registry"]))
